@@ -52,6 +52,7 @@ type Profile struct {
 	RemoveBias                                                                   float64 // probability that a membership change removes a voter other than the proposer
 	HoldSnapshot                                                                 float64 // a node that has just accepted a snapshot is stalled (keeps the install pending) with this probability
 	SnapChaos                                                                    float64 // MsgSnap is delayed by election timeouts / duplicated with this probability
+	PNodeAPI                                                                     float64 // E3 nodesim: nodes are driven through the channel-based raft.Node
 	Follower                                                                     bool    // E2 followersim: one real node (learner) among abstract peers
 	PWideIDs                                                                     float64 // node ids spread over the whole uint64 range (hash-style ids) instead of 1..n
 	ShortElection                                                                bool
@@ -273,6 +274,7 @@ func DrawConfig(rng *rand.Rand, p Profile, runSeed uint64) RunConfig {
 		id++
 	}
 	rc.SplitSnapshot = chance(rng, p.PSplitSnapshot)
+	rc.NodeAPI = chance(rng, p.PNodeAPI)
 	if p.Follower {
 		// one real node (id 1, a learner), three or five abstract voters
 		real := rc.Nodes[0]
@@ -533,8 +535,8 @@ func (g *Gen) needsPump(n *Node) bool {
 // hasReady is a read-only query (guarded: a panic here is a finding too).
 func (c *Cluster) hasReady(n *Node) bool {
 	has := false
-	if !c.guard(n, "HasReady", func() error { has = n.rn.HasReady(); return nil }) {
-		n.up, n.rn = false, nil
+	if !c.guard(n, "HasReady", func() error { has = n.api.HasReady(); return nil }) {
+		n.down()
 	}
 	return has
 }
@@ -729,7 +731,7 @@ func (g *Gen) clientOp() {
 			return
 		}
 		g.proposals++
-		g.do(Action{K: APropose, N: id, Tags: []int{g.tag()}, I: g.payloadSize(), J: g.reuseBuffer()})
+		g.do(Action{K: APropose, N: id, Tags: []int{g.tag()}, I: g.payloadSize(), J: g.reuseBuffer(), M: g.cancelProposer()})
 	case 1:
 		id := g.targetNode(0.6)
 		if id == 0 {
@@ -802,6 +804,15 @@ func (g *Gen) tag() int { g.nextTag++; return g.nextTag }
 
 // reuseBuffer decides whether the client overwrites its payload buffer once
 // the Propose call has returned (takes effect at leaders only, see doPropose).
+// cancelProposer decides whether a waiting proposer's context ends between
+// the hand-over of the proposal and the posting of its outcome (E3 only).
+func (g *Gen) cancelProposer() uint64 {
+	if g.c.rc.NodeAPI && chance(g.rng, 0.15) {
+		return 1
+	}
+	return 0
+}
+
 func (g *Gen) reuseBuffer() int {
 	if chance(g.rng, 0.3) {
 		return 1
